@@ -150,8 +150,20 @@ Lemma handle_readlink_ro s h : RO s (fst (handle_readlink s h)).
 Proof. unfold handle_readlink. handler. Qed.
 Lemma handle_fsx_ro s h f : RO s (fst (handle_fsx s h f)).
 Proof. unfold handle_fsx. handler. Qed.
+Lemma mnt_prefix_check_ro fuel : forall s pre, RO s (fst (mnt_prefix_check s pre fuel)).
+Proof.
+  induction fuel as [|k IH]; intros s pre; cbn [mnt_prefix_check]; [destruct pre; apply RO_refl|].
+  destruct pre as [|c r]; [apply RO_refl|].
+  destruct (do_lstat s (c :: r)) as [s1 res] eqn:E. collect.
+  destruct res as [fi|e]; [destruct (kind_eqb (fi_kind fi) KLink)|]; cbn [fst]; chain;
+  (eapply RO_trans; [|apply IH]); chain.
+Qed.
 Lemma handle_mnt_ro s p : RO s (fst (handle_mnt s p)).
-Proof. unfold handle_mnt. handler. Qed.
+Proof.
+  unfold handle_mnt. des; collect2;
+  repeat match goal with E : mnt_prefix_check ?s ?pre ?f = (_, _) |- _ => ro_fact E (mnt_prefix_check_ro f s pre); revert E end;
+  intros; chain.
+Qed.
 Lemma handle_read_ro s h off cnt : RO s (fst (handle_read s h off cnt)).
 Proof.
   unfold handle_read. des; collect2; chain.
